@@ -260,6 +260,20 @@ def _stable(T, *terms):
                             if isinstance(e, dict) and "n" in e:
                                 written.add(e["n"])
         fn._cache["written_fields"] = written
+        # objects handed out whole as `&mut` (e.g. `&mut *self` passed to a method): a callee may change any field of them
+        whole = []
+        for b in fn.blocks:
+            for st in b["s"]:
+                if st["k"] == "assign" and st["r"]["k"] in ("ref", "rawptr") and (st["r"].get("bk") == "mut" or st["r"].get("mut")):
+                    pr = st["r"]["p"].get("pr", [])
+                    if not any(isinstance(e, dict) and "n" in e for e in pr) or (pr and pr[-1] == "*"):
+                        if "&mut" in fn.locals[st["r"]["p"]["l"]].s or pr:
+                            try:
+                                whole.append(T.place(st["r"]["p"]))
+                            except Exception:
+                                pass
+        fn._cache["whole_mut"] = whole
+    whole = fn._cache.get("whole_mut", [])
     for t in terms:
         if t is None:
             continue
@@ -271,6 +285,8 @@ def _stable(T, *terms):
             if x[0] == "call" and x[1] not in _PURE_CALLS and not _pure_workspace_fn(x[1]):
                 return False
             if x[0] == "field" and x[2] in written:
+                return False
+            if x[0] == "field" and x[1] in whole:
                 return False
     return True
 
@@ -309,8 +325,38 @@ def _cmp_parts(scrut):
     return None
 
 
+def _range_loop_index(fn, T, recv, idx):
+    """v[i] where i is the item of `for i in 0..N` (or `a..N`) and N is v.len() or a min(..) that includes v.len()"""
+    if recv is None or idx is None or not _stable(T, recv):
+        return None
+    if not (idx[0] == "field" and idx[2] == "0" and idx[1][0] == "downcast" and idx[1][2] == "Some"):
+        return None
+    c = idx[1][1]
+    if c[0] != "call" or c[1] != "std::iter::Iterator::next" or not c[2]:
+        return None
+    it = c[2][0]
+    while it[0] == "call" and it[1] == "std::iter::IntoIterator::into_iter" and it[2]:
+        it = it[2][0]
+    if it[0] != "agg" or it[1] != "std::ops::Range":
+        return None
+    end = dict(it[3]).get("end")
+
+    def bounded(e, depth=0):
+        if e is None or depth > 4:
+            return False
+        if e[0] == "call" and e[1].rsplit("::", 1)[-1] == "len" and len(e[2]) == 1 and e[2][0] == recv:
+            return True
+        if e[0] == "call" and e[1] in ("std::cmp::min", "std::cmp::Ord::min") and len(e[2]) == 2:
+            return any(bounded(x, depth + 1) for x in e[2])
+        return False
+    return "index is the item of a `for i in a..N` loop with N bounded by the length of the indexed sequence" if bounded(end) else None
+
+
 def _guarded_index(fn, T, bb, recv, idx):
     """v[i] dominated by i < v.len() (or v.len() > i)"""
+    g = _range_loop_index(fn, T, recv, idx)
+    if g:
+        return g
     if recv is None or idx is None or not _stable(T, recv, idx):
         return None
 
@@ -473,6 +519,12 @@ def _guarded_nonzero(fn, T, bb, divisor):
         elif scrut[0] == "call" and scrut[1] in ("std::cmp::PartialEq::ne", "std::cmp::PartialOrd::gt") and len(scrut[2]) == 2 and scrut[2][0] == divisor and scrut[2][1] == ("const", 0):
             want = True
         if want is None:
+            # `match divisor { 0 => .., d => x / d }`: the arm that excludes the label 0
+            labs_all = [l for ls in edges.values() for l in ls]
+            if scrut == divisor and any(l == 0 and not isinstance(l, bool) for l in labs_all):
+                for tgt, labs in edges.items():
+                    if labs == ["else"] and len(cfg.pred[tgt]) == 1 and cfg.dominates(tgt, bb):
+                        return "divisor matched against 0 and the division is on the other arm"
             continue
         for tgt, labs in edges.items():
             if labs == [want] and len(cfg.pred[tgt]) == 1 and cfg.dominates(tgt, bb):
@@ -497,6 +549,44 @@ def inventory(ctx, roots, skip, extern_panicking):
     return cl, sites
 
 
+def _infeasible(ctx, site):
+    """An explicit panic (`unreachable!()`, the failing arm of a match) that no assignment of the Options tested in
+    this body can reach: e.g. `assert!(a.is_some() || b.is_some()); match (&a, &b) { .., (None, None) => unreachable!() }`.
+    The Options are places that cannot change inside the function (_stable); the walk is the guard-table walker, which
+    follows every edge it cannot evaluate."""
+    from engine.guards import Atom, Walker
+    fn = site.fn
+    if site.kind != "panic":
+        return None
+    T = ctx.T(fn)
+    cands = []
+    for bb in range(len(fn.blocks)):
+        si = T.switch_info(bb)
+        if si is None:
+            continue
+        scrut, edges = si
+        labs = set(l for ls in edges.values() for l in ls)
+        xs = []
+        if scrut[0] == "discr" and labs <= {"Some", "None"}:
+            xs.append(scrut[1])
+        for y in subterms(scrut):
+            if y[0] == "call" and y[1] in ("std::option::Option::is_some", "std::option::Option::is_none") and y[2]:
+                xs.append(y[2][0])
+        for x in xs:
+            while x[0] == "call" and x[1] in Walker.SOMENESS_PRESERVING and x[2]:
+                x = x[2][0]
+            if x not in cands and x[0] == "field" and _stable(T, x):
+                cands.append(x)
+    if not cands or len(cands) > 4:
+        return None
+    atoms = [Atom("o%d" % i, "opt", (lambda t, x=x: t == x), ["Some", "None"]) for i, x in enumerate(cands)]
+    W = Walker(ctx, fn, atoms)
+    names, tab = W.table({"site": [site.bb]})
+    if tab and all("site" not in r for r in tab.values()):
+        return "infeasible arm: unreachable under every combination of Some/None of the Options tested on the way (%s)" % ", ".join(show(x) for x in cands)
+    return None
+
+
 def dedupe(ctx, sites, panic_abort):
     """One entry per written instruction: [(representative Site, discharge reason or None)]. An instruction of a
     helper that was inlined into several callers is discharged only if every copy is (the operands may be
@@ -507,7 +597,7 @@ def dedupe(ctx, sites, panic_abort):
         groups.setdefault((s.ident, s.kind, s.callee), []).append(s)
     out = []
     for ss in groups.values():
-        rs = [auto_discharge(s, s.fn, ctx.T(s.fn), panic_abort) for s in ss]
+        rs = [auto_discharge(s, s.fn, ctx.T(s.fn), panic_abort) or _infeasible(ctx, s) for s in ss]
         if all(r is not None for r in rs):
             out.append((ss[0], rs[0]))
         else:
